@@ -18,6 +18,7 @@ CA = "/repo/tests/pycacert.pem"
 SERVER_ADDR = ("::ffff:127.0.0.1", 4433, 0, 0)
 BLOCK = 32                     # Byte(salt, o) = (o div BLOCK + salt) mod 256  (TraceAsyncio!Byte)
 STEP_BUDGET = 300000
+HORIZON = 400.0                # virtual seconds; idle timeouts are <= 60 s, sleeps <= 3 s
 
 
 class HarnessError(Exception):
@@ -231,6 +232,7 @@ class Runner:
         self.steps = 0
         self.creating = None
         self.tasks = []
+        self.rebound = set()
         self.keep = []                  # writers stay referenced: StreamWriter.__del__ would close (send FIN) at a GC-chosen moment
         self.spin = 0
 
@@ -578,20 +580,32 @@ class Runner:
         else:
             d = net.q.pop(k - nready - ndue)
             x = rnd.random()
-            if x < nf["drop"] and self.drops < nf["max_drops"]:
+            fate = "deliver"
+            if x < nf["drop"]:
+                if self.drops < nf["max_drops"]:
+                    fate = "drop"
+            elif x < nf["drop"] + nf["dup"]:
+                if self.dups < nf["max_dups"] and d.copies < 2:
+                    fate = "dup"
+            elif x < nf["drop"] + nf["dup"] + nf["rebind"]:
+                # NAT rebinding: from now on this client's datagrams arrive from another source
+                # port.  Only before the server has any connection for that client, so that no
+                # connection sees its peer's address change (path migration is not C19's business)
+                cl = self.client_addr.index(d.src) + 1 if d.src in self.client_addr else 0
+                if (cl and cl not in self.rebound and d.dst == SERVER_ADDR and d.data and (d.data[0] & 0xB0) == 0x80
+                        and len(d.data) >= 1200 and not any(p._c19_side == "s" and p._c19_cl == cl for p in self.protos)):
+                    self.rebound.add(cl)
+                    self.rebinds += 1
+            if d.src in self.client_addr and (self.client_addr.index(d.src) + 1) in self.rebound:
+                d.src = ("::ffff:127.0.0.1", d.src[1] + 1000, 0, 0)
+            if fate == "drop":
                 self.drops += 1
-            elif x < nf["drop"] + nf["dup"] and self.dups < nf["max_dups"] and d.copies < 2:
+            elif fate == "dup":
                 self.dups += 1
                 d.copies += 1
                 c = Dgram(d.src, d.dst, d.data, loop.now)
                 c.copies = d.copies
                 net.q.insert(rnd.randrange(len(net.q) + 1), c)
-                net.deliver(d)
-            elif (x < nf["drop"] + nf["dup"] + nf["rebind"] and self.rebinds < 2 and d.dst == SERVER_ADDR
-                  and d.src in self.client_addr and d.data and (d.data[0] & 0xB0) == 0x80 and len(d.data) >= 1200):
-                # NAT rebinding of a client Initial: it arrives from another source port
-                self.rebinds += 1
-                d.src = ("::ffff:127.0.0.1", d.src[1] + 1000, 0, 0)
                 net.deliver(d)
             else:
                 net.deliver(d)
@@ -614,8 +628,14 @@ class Runner:
         try:
             self.setup()
             self.snapshot()
+            quiescent = True
             while self.step():
                 self.steps += 1
+                if self.loop.now > HORIZON:
+                    # the endpoints keep each other busy for ever (a livelock inside the QUIC core):
+                    # there is no final state to judge; reported as drift, not as a verdict
+                    quiescent = False
+                    break
                 if self.steps > STEP_BUDGET:
                     raise HarnessError("scenario %s did not quiesce within %d steps" % (self.sc["id"], STEP_BUDGET))
             for t in self.tasks:
@@ -627,11 +647,14 @@ class Runner:
             self.dirty = True
             self.snapshot()
             lossless = self.drops == 0 and self.rebinds == 0
-            for kind in ("connected", "ping", "closed"):
-                for late in (False, True):
-                    self.rec.emit(op="finalw", kind=kind, late=late)
-            self.rec.emit(op="final", lossless=lossless,
-                          allterm=all(p._c19_term for p in self.protos))
+            if quiescent:
+                for kind in ("connected", "ping", "closed"):
+                    for late in (False, True):
+                        self.rec.emit(op="finalw", kind=kind, late=late)
+                self.rec.emit(op="final", lossless=lossless,
+                              allterm=all(p._c19_term for p in self.protos))
+            else:
+                self.rec.emit(op="nofinal", vtime=int(self.loop.now))
         finally:
             asyncio.events._set_running_loop(None)
         return self.rec.lines
